@@ -169,7 +169,7 @@ pub fn run(args: &Args) {
     crate::drive_parallel(
         &report,
         "valid",
-        t.pick(8_000, 600_000),
+        t.pick(30_000, 600_000),
         || gen_iso::printed_only(&valid).prop_map(|p| p.text),
         |s| case(&report, "valid", s),
         txt,
@@ -177,7 +177,7 @@ pub fn run(args: &Args) {
     crate::drive_parallel(
         &report,
         "valid-exotic-ws",
-        t.pick(2_000, 200_000),
+        t.pick(10_000, 200_000),
         || gen_iso::printed_only(&exotic).prop_map(|p| p.text),
         |s| case(&report, "valid", s),
         txt,
@@ -185,7 +185,7 @@ pub fn run(args: &Args) {
     crate::drive_parallel(
         &report,
         "hostile-values",
-        t.pick(4_000, 400_000),
+        t.pick(20_000, 400_000),
         || gen_iso::printed_only(&hostile).prop_map(|p| p.text),
         |s| case(&report, "hostile-values", s),
         txt,
@@ -193,7 +193,7 @@ pub fn run(args: &Args) {
     crate::drive_parallel(
         &report,
         "mutants",
-        t.pick(12_000, 1_200_000),
+        t.pick(60_000, 1_200_000),
         || gen_iso::mutant(&exotic).prop_map(|(_, _, text)| text),
         |s| case(&report, "mutant", s),
         txt,
@@ -201,11 +201,15 @@ pub fn run(args: &Args) {
     crate::drive_parallel(
         &report,
         "arbitrary",
-        t.pick(6_000, 600_000),
+        t.pick(30_000, 600_000),
         gen_iso::arbitrary_text,
         |s| case(&report, "arbitrary", s),
         txt,
     );
+    if t == vcore::Tier::Thorough && report.violation_count() == 0 {
+        let runs = args.rest.iter().find_map(|a| a.strip_prefix("--fuzz-runs=").and_then(|v| v.parse().ok())).unwrap_or(10_000_000u64);
+        crate::c07_fuzz::campaign(&report, runs);
+    }
     report.extra(
         "generator_acceptance",
         json!({"valid_generated": VALID_TOTAL.load(Ordering::Relaxed), "valid_accepted": VALID_ACCEPTED.load(Ordering::Relaxed)}),
